@@ -12,7 +12,7 @@ from .. import common as C, gox
 
 PROP = 'C11'
 KINDS = ['file', 'link', 'capability', 'network', 'mount', 'remount', 'umount', 'pivot_root', 'change_profile', 'signal', 'ptrace',
-         'unix', 'dbus', 'rlimit', 'userns', 'mqueue', 'io_uring', 'all', 'include', 'mixed']
+         'unix', 'dbus', 'rlimit', 'userns', 'mqueue', 'io_uring', 'all', 'include', 'mixed', 'twins']
 
 
 def run(tier):
@@ -34,7 +34,7 @@ def run(tier):
             fnd.report(v['sig'], '%s (x%d): %s' % (v['what'], v['count'], ' | '.join(v['input'])), {'kind': j['kind'], 'rules': v['input']})
     ev.add(traces_validated_against_impl=ev.cov['transitions'])
     ev.add(rule='state = one rule of the universe; transition = one call of the real Compare on an ordered pair, or one Rules.Sort of a permuted list; triples are checked on the sign matrix')
-    ev.assume('comments are exempt from "equal only if identical"; explicit allow == no access type',
+    ev.assume('inside the per-kind universes comments are exempt from "equal only if identical" (the `twins` part judges a rule against itself with a trailing comment or marker separately); explicit allow == no access type',
               'class signatures carry a machine-checked predicate (e.g. the intransitive triple mixes paths with and without a documented sort prefix): a triple outside the predicate is a new violation')
     return C.conclude(ev, fnd)
 
